@@ -304,11 +304,24 @@ func (o *outcome) common(c caseT, how string) bool {
 			break
 		}
 	}
-	if o.tr.cachePeak > o.rl+o.maxSeg {
+	// buffered unparsed input never exceeds the read limit: the limit is applied before a read is
+	// appended to the cache; only a first read (nothing cached yet) is taken as it is
+	cacheBound := o.rl
+	if o.maxSeg > cacheBound {
+		cacheBound = o.maxSeg
+	}
+	if o.tr.cachePeak > cacheBound {
 		violate("c15:"+how+":input-cache-over-read-limit", fmt.Sprintf("input cache grew to %d bytes; ReadLimit=%d, longest read %d\n%s", o.tr.cachePeak, o.rl, o.maxSeg, o.describe()), c, o.wire, o.cuts)
 		ok = false
 	}
-	run.Max("max_input_cache_permille_of_bound", int64(o.tr.cachePeak*1000/(o.rl+o.maxSeg)))
+	run.Max("max_input_cache_permille_of_bound", int64(o.tr.cachePeak*1000/cacheBound))
+	// nothing larger than the limit is buffered: a frame whose declared length passes the limit is
+	// refused at its header, so the cache never holds more than an incomplete frame within the
+	// limit (payload + 14 header bytes) and one read
+	if L > 0 && o.tr.cachePeak > L+14+o.maxSeg {
+		violate("c15:"+how+":over-limit-frame-buffered", fmt.Sprintf("input cache grew to %d bytes although MessageLengthLimit=%d (longest read %d): a frame over the limit was buffered instead of being refused at its header\n%s", o.tr.cachePeak, L, o.maxSeg, o.describe()), c, o.wire, o.cuts)
+		ok = false
+	}
 	if L > 0 {
 		bound := 2*L + o.rl + o.maxSeg + 4096
 		run.Max("max_peak_live_permille_of_bound", int64(o.tr.peak*1000/bound))
